@@ -12,6 +12,7 @@
  R5 aliases   : in both other_name loops the dict given to the constructor has type_variety set from the loop
                 variable and the alias list removed, on a per-alias copy.
  R6 no value filter: comprehension filters in the converters are key tests, never the truthiness of the converted item.
+ R7 range round trip: list <-> keyed form of a range keeps every position (Span and SI sites).
 """
 import ast
 
@@ -541,5 +542,40 @@ def r6_no_value_filter(ctx):
                                   'are silently dropped and the converted file no longer describes the same equipment', ast.unparse(comp)[:160])
     ctx.need('R6.no-value-filter', 3)
 
+
+def r7_range_round_trip(ctx):
+    """R7: list <-> keyed form of a range is a bijection: convert_range_to_dict puts element i of [min, max, step] under its key;
+    every list rebuilt from the keyed form (Span and SI sites of convert_back_delta_power_range) puts the key back at the
+    position it came from"""
+    repo = ctx.repo
+    fw = repo.func(UTIL, 'convert_range_to_dict')
+    P = fw.params[0]
+    dicts = [n for n in ast.walk(fw.node) if isinstance(n, ast.Dict)]
+    pos = {}
+    if len(dicts) == 1:
+        for k, v in zip(dicts[0].keys, dicts[0].values):
+            if isinstance(k, ast.Constant) and isinstance(v, ast.Subscript) and ast.unparse(v.value) == P and isinstance(v.slice, ast.Constant):
+                pos[k.value] = v.slice.value
+    ctx.check('R7.range-round-trip', site(fw), sorted(pos.values()) == [0, 1, 2] and len(pos) == 3, key(fw, 'forward'),
+              'convert_range_to_dict does not map the three list positions to three keys', str(pos))
+    bw = repo.func(UTIL, 'convert_back_delta_power_range')
+    n = 0
+    for lst in [x for x in ast.walk(bw.node) if isinstance(x, ast.List) and len(x.elts) == 3 and all(
+            isinstance(e, ast.Subscript) and isinstance(e.slice, ast.Constant) and isinstance(e.slice.value, str) for e in x.elts)]:
+        n += 1
+        keys = [e.slice.value for e in lst.elts]
+        ok = len({ast.unparse(e.value) for e in lst.elts}) == 1 and [pos.get(k) for k in keys] == [0, 1, 2]
+        ctx.check('R7.range-round-trip', f'{site(bw, lst)} {keys}', ok, key(bw, f'back|{stmt_target(lst)}'),
+                  f'the range list is rebuilt as {keys}; the keyed form was filled from positions {pos}: legacy -> YANG -> legacy would permute '
+                  'the range (a reversed sweep)', ast.unparse(lst)[:120])
+    ctx.need('R7.range-round-trip', 3)
+
+
+def stmt_target(node):
+    cur = node
+    while cur is not None and not isinstance(cur, ast.Assign):
+        cur = getattr(cur, '_parent', None)
+    return ast.unparse(cur.targets[0])[:40] if cur is not None else '?'
+
 RULES = [('R2.accumulate', r2b_accumulators), ('R1.pairing', r1_pairing), ('R2.siblings', r2_siblings), ('R3.precision', r3_precision),
-         ('R4.loaders', r4_loaders), ('R5.aliases', r5_aliases), ('R6.no-value-filter', r6_no_value_filter)]
+         ('R4.loaders', r4_loaders), ('R5.aliases', r5_aliases), ('R6.no-value-filter', r6_no_value_filter), ('R7.range-round-trip', r7_range_round_trip)]
